@@ -17,7 +17,7 @@ from sim.tape import Tape
 
 from . import microworld_cancel
 from .c04 import account
-from .common import base_evidence, bump, digest_of, pair_hash
+from .common import await_site, base_evidence, bump, digest_of, pair_hash
 from .incremental import run_incremental
 
 PROP = "C06"
@@ -81,7 +81,12 @@ class Stop:
             if s.started and s.kind != "aiter_noclose"
             and not (s.exhausted or s.self_failed or s.finalized or s.aclose_done)
         ]
+        try:
+            tracked = len(info.executor.background_futures)
+        except Exception:  # noqa: BLE001
+            tracked = -1
         self.hook_snapshots.append({
+            "tracked_background_pending": tracked,
             "poll": self.sim.poll, "pending_externals": pending[:6], "active": req.active,
             "open_sources": open_sources[:4],
             "in_flight": sum(s.in_anext + s.in_aclose for s in req.sources),
@@ -183,9 +188,13 @@ def evaluate(sim, scn, reqs, results, stops, status, knobs, stats=None):
             if still and rr.waiting is None:
                 vs.append(Violation(PROP, "hanging_external_not_cancelled", {
                     "stop": kind, "kind": still[0].kind,
-                    "signal": stop is not None and stop.controller is not None},
+                    "signal": stop is not None and stop.controller is not None,
+                    "abort_phase": _phase(stop, rr),
+                    "reaction": stop.reaction if kind == "abort" else "-"},
                     {"request": i, "externals": [e.label for e in still][:5]}))
         # 4. sources closed exactly once
+        announced_paths = [list(pe.get("path")) for p in rr.payloads
+                           for pe in p.get("pending") or ()]
         if rr.waiting is None:
             for s in req.sources:
                 if not s.started or s.kind == "aiter_noclose":
@@ -194,7 +203,9 @@ def evaluate(sim, scn, reqs, results, stops, status, knobs, stats=None):
                     if not s.finalized:
                         vs.append(Violation(PROP, "source_not_closed", {
                             "source": "agen", "last_anext": s.last_anext, "stop": kind,
-                            "cause": _cause(rs, stop, rr)},
+                            "cause": _cause(rs, stop, rr), "abort_phase": _phase(stop, rr),
+                            "stream_announced": list(s.path) in announced_paths,
+                            "reaction": stop.reaction if kind == "abort" else "-"},
                             {"request": i, "path": list(s.path), "pulls": s.pulls}))
                         break
                     continue
@@ -207,7 +218,9 @@ def evaluate(sim, scn, reqs, results, stops, status, knobs, stats=None):
                 if not done_by_itself and s.aclose_calls == 0:
                     vs.append(Violation(PROP, "source_not_closed", {
                         "source": s.kind, "last_anext": s.last_anext, "stop": kind,
-                        "cause": _cause(rs, stop, rr)},
+                        "cause": _cause(rs, stop, rr), "abort_phase": _phase(stop, rr),
+                        "stream_announced": list(s.path) in announced_paths,
+                        "reaction": stop.reaction if kind == "abort" else "-"},
                         {"request": i, "path": list(s.path), "pulls": s.pulls}))
                     break
         # 5. hook
@@ -226,7 +239,10 @@ def evaluate(sim, scn, reqs, results, stops, status, knobs, stats=None):
                     what = ("pending_external" if snap["pending_externals"] else
                             "running_coroutine" if snap["active"] or snap["in_flight"]
                             else "open_source")
-                    vs.append(Violation(PROP, "hook_early", {"unsettled": what, "stop": kind},
+                    vs.append(Violation(PROP, "hook_early", {
+                        "unsettled": what, "stop": kind,
+                        "stopped": bool(stop.fired or rr.stopped),
+                        "tracked_background_pending": snap["tracked_background_pending"] != 0},
                                         {"request": i, "snapshot": snap}))
     # 3b. leftover tasks at quiescence
     lib_left = [t for t in left if t not in consumer_left]
@@ -235,14 +251,51 @@ def evaluate(sim, scn, reqs, results, stops, status, knobs, stats=None):
         coro = t.get_coro()
         qn = getattr(coro, "__qualname__", repr(coro))
         kinds = sorted({(s.kind if s else "none") for s in stops})
+        phases = sorted({_phase(s, r_) for s, r_ in zip(stops, results)} - {"-"})
+        reactions = sorted({s.reaction for s, r_ in zip(stops, results)
+                            if _phase(s, r_) == "initial"})
         vs.append(Violation(PROP, "orphan_task", {
-            "coroutine": qn, "stops": ",".join(kinds),
+            "coroutine": qn, "site": await_site(t), "stops": ",".join(kinds),
+            "stream_announced": _stream_announced(t, results),
+            "abort_phase": ",".join(phases) or "-", "reaction": ",".join(reactions) or "-",
             "signal": any(s is not None and s.controller is not None for s in stops)},
             {"tasks": [getattr(x.get_coro(), "__qualname__", "?") for x in lib_left][:6]}))
     agen_hits = [n for n in sim.loop.finalizer_hits if "agen" in n]
     if agen_hits:
         vs.append(Violation(PROP, "source_left_to_gc", {"source": "agen"}, {"hits": agen_hits[:3]}))
     return vs
+
+
+def _stream_announced(task, results):
+    """For a leaked stream producer: was its stream ever announced to the consumer?
+    (introspective probe: only refines the fingerprint, never the verdict)"""
+    import gc
+
+    try:
+        q = task.get_coro().cr_frame.f_locals.get("self")
+        for ref in gc.get_referrers(q):
+            if type(ref).__name__ == "ItemStream":
+                path = ref.path.as_list()
+                for rr in results:
+                    for p in rr.payloads:
+                        for pe in p.get("pending") or ():
+                            if list(pe.get("path")) == path:
+                                return True
+                return False
+    except Exception:  # noqa: BLE001
+        pass
+    return "?"
+
+
+def _phase(stop, rr):
+    """Where an abort landed: during the initial phase (execute raised) or later."""
+    if stop is None or stop.kind != "abort" or not stop.fired:
+        return "-"
+    if rr.kind == "raised":
+        return "initial"
+    if rr.kind == "incremental":
+        return "incremental"
+    return "after"
 
 
 def _cause(rs, stop, rr):
